@@ -5,6 +5,7 @@
   functions, discharged for the model of the clause compiler.)
 -/
 import Yld.Proofs.PyFunction
+import Yld.Proofs.FrameLocalEngine
 import Yld.Model.Api
 namespace Yld
 
@@ -388,5 +389,11 @@ theorem pyTop_def_correct (cfg : Cfg) (f : Nat) (p : Pred) (mode : Mode) (args :
   simp only [runDefPyTop, runDef]
   exact py_function_correct (query cfg f) hq f hu p (compilePred p 0).1 args harity
     (compileClauses_ok args.length p.clauses 0 hsrc) k w
+
+/-- … and they do not: for the model engine nothing is assumed. -/
+theorem pyTop_def_correct_engine (cfg : Cfg) (f : Nat) (p : Pred) (mode : Mode) (args : List Term)
+    (harity : p.arity = args.length) (hsrc : ∀ c ∈ p.clauses, ClauseSrcOK c args.length) :
+    runDefPyTop cfg (f + 1) (.prolog p mode) args = runDef cfg (f + 1) (.prolog p .compiled) args :=
+  pyTop_def_correct cfg f p mode args harity hsrc (query_frameLocal cfg f) (unify_frameLocal f)
 
 end Yld
